@@ -497,7 +497,7 @@ def s7(chk: Check, proj: Project, m, fc) -> None:
 
 
 MANIFEST = {
-    "text": "Cross-checks the two argument validators as siblings (equal event sequences per phase and conditional depth), requires both to consult the positional-only boundary at the two points where Python's binding differs, classifies every raise, fixes that render receives exactly the validated arguments, that non-identifier keys are collected with duplicate detection, that mappings are recognised by the ABC, and that defaults are read per call. Also: raw co_varnames is only used sliced to the parameters, the index into __defaults__ is a linear form counted from the end of the positional parameters, the fallback signature skips two parameters by position, and the 'already wrapped' marker is read from the function. Round 4: strict index-vs-count guard when a positional is mapped to a name; the keyword lookup set and the **kwargs complement set are the same set. Round 5: spread-mapping keys reach the binding unchanged; the callable that is inspected is the callable that is called (no unwrapping). Round 6: no raw co_argcount / co_posonlyargcount in a comparison with an index of the tag's arguments.",
+    "text": "Cross-checks the two argument validators as siblings (equal event sequences per phase and conditional depth), requires both to consult the positional-only boundary at the two points where Python's binding differs, classifies every raise, fixes that render receives exactly the validated arguments, that non-identifier keys are collected with duplicate detection, that mappings are recognised by the ABC, and that defaults are read per call. Also: raw co_varnames is only used sliced to the parameters, the index into __defaults__ is a linear form counted from the end of the positional parameters, the fallback signature skips two parameters by position, and the 'already wrapped' marker is read from the function. Round 4: strict index-vs-count guard when a positional is mapped to a name; the keyword lookup set and the **kwargs complement set are the same set. Round 5: spread-mapping keys reach the binding unchanged; the callable that is inspected is the callable that is called (no unwrapping). Round 6: no raw co_argcount / co_posonlyargcount in a comparison with an index of the tag's arguments. Round 7: the metaclass skips wrapping only for functions that already carry the marker.",
     "note": "Trusted: the final render(self, context, *args, **kwargs) call is bound by CPython. Not decided: full equivalence with CPython's binding algorithm over signatures x call shapes (an enumeration, another family).",
     "technique": "static sibling cross-checking, dataflow/control-dependence requirements at kind-sensitive decision points, raise classification, single reaching definition",
 }
